@@ -70,7 +70,11 @@ func render(variant int, plant, value string) rendered {
 
 var embNames = []string{"bare", "nested-in-format", "upper-case",
 	// thorough tier only:
-	"mixed-case", "operand-of-not", "left-of-and-or", "right-of-or", "compared", "format-depth-2", "index-position", "deref-receiver"}
+	"mixed-case", "operand-of-not", "left-of-and-or", "right-of-or", "compared", "format-depth-2", "index-position", "deref-receiver",
+	// the placeholder is not the whole value (template positions only; quick: for four contexts):
+	"text-before-placeholder", "second-placeholder"}
+
+const embTextBefore, embSecond = 11, 12
 
 const quickEmbeddings = 3
 
@@ -256,6 +260,37 @@ type caseResult struct {
 	err      error
 }
 
+// acceptsText: the position holds a string template (text around a placeholder is fine there);
+// bool / number positions and whole-section expressions demand exactly one placeholder.  Probed
+// with constant placeholders on the current tree.
+var acceptsTextMemo = map[int]bool{}
+
+func acceptsText(pi int) bool {
+	if v, ok := acceptsTextMemo[pi]; ok {
+		return v
+	}
+	p := positions[pi]
+	ok := p.Form == 0
+	for _, v := range []string{"v-${{ 1 }}", "${{ 'x' }}-${{ 1 }}"} {
+		if !ok {
+			break
+		}
+		r := render(p.Variant, p.ID, v)
+		errs, err := lint(r.Text)
+		if err != nil || !r.Planted {
+			ok = false
+			break
+		}
+		for _, e := range errs {
+			if e.Line == r.Line {
+				ok = false
+			}
+		}
+	}
+	acceptsTextMemo[pi] = ok
+	return ok
+}
+
 func makeCase(pi int, name string, isFn bool, emb int) lintCase {
 	p := positions[pi]
 	e := exprFor(name, isFn, emb)
@@ -263,6 +298,14 @@ func makeCase(pi int, name string, isFn bool, emb int) lintCase {
 		e = "true && " + e // a plain YAML scalar cannot start with `!` (it would be a tag)
 	}
 	value, src, off := plantFor(p.Form, e)
+	if p.Form == 0 && (emb < embTextBefore || acceptsText(pi)) {
+		switch emb {
+		case embTextBefore:
+			value, off = "v-"+value, off+2
+		case embSecond:
+			value, off = "${{ 'x' }}-"+value, off+11
+		}
+	}
 	r := render(p.Variant, p.ID, value)
 	if !r.Planted {
 		panic("marker not found: " + p.ID)
@@ -538,7 +581,7 @@ func main() {
 
 	hx.Must(os.MkdirAll(*out, 0o755))
 	sum := hx.NewSummary("C12")
-	sum.Rule = "EXHAUSTIVE: every scalar value position of the every-key workflows x every context and special function of GitHub's table x embeddings (quick: bare, argument of format(), upper case; thorough: + mixed case, operand of !, of && and ||, of ==, format() at depth 2, index position, receiver of a dereference), each planted alone into the otherwise clean workflow and linted through NewLinter+Lint; plus seeded deep expressions (several names, depth <= 4, every operator, random letter case; each occurrence judged by its column); plus WorkflowKeyAvailability on every (table key, name) pair and on unlisted keys; non-trivial = a not-allowed / undefined-variable diagnostic is reported at the planted position; distinct = distinct (position, form, name, embedding)"
+	sum.Rule = "EXHAUSTIVE: every scalar value position of the every-key workflows x every context and special function of GitHub's table x embeddings (quick: bare, argument of format(), upper case; thorough: + mixed case, operand of !, of && and ||, of ==, format() at depth 2, index position, receiver of a dereference, placeholder after other text / after another placeholder of the same value), each planted alone into the otherwise clean workflow and linted through NewLinter+Lint; plus seeded deep expressions (several names, depth <= 4, every operator, random letter case; each occurrence judged by its column); plus WorkflowKeyAvailability on every (table key, name) pair and on unlisted keys; non-trivial = a not-allowed / undefined-variable diagnostic is reported at the planted position; distinct = distinct (position, form, name, embedding)"
 
 	// 0. the specification file is the transcription of the committed table
 	sum.Extra["spec_rows"] = len(sp.rows)
@@ -588,6 +631,13 @@ func main() {
 		for _, f := range sp.funcs {
 			for emb := 0; emb < nEmb; emb++ {
 				cases = append(cases, makeCase(pi, f, true, emb))
+			}
+		}
+		if *tier != "thorough" && positions[pi].Form == 0 && acceptsText(pi) {
+			for _, c := range sp.contexts {
+				if c == "secrets" || c == "env" || c == "github" || c == "runner" {
+					cases = append(cases, makeCase(pi, c, false, embTextBefore), makeCase(pi, c, false, embSecond))
+				}
 			}
 		}
 	}
